@@ -36,6 +36,7 @@ def run(ctx):
     r015(ctx)
     r016(ctx)
     r017(ctx)
+    shared_value_ops(ctx)
     # "whether the simplifier is applied to one expression or to all expressions of a transition system": the system-level driver
     # (system/transform.rs, anchored by this property) must hand every expression of the system to the engine and re-point every field
     # to its own result - the clauses of C11, re-evaluated here under their own rule ids
@@ -120,6 +121,14 @@ def r012(ctx):
                              show(inst["node"]), inst["from"], inst["to"], path, inst["to"] + "::MAX", why),
                          sample={"fn": path, "cast": show(inst["node"]), "from": inst["from"], "to": inst["to"], "guard": why})
     ctx.extra["narrowing_casts_in_simplify"] = n
+
+
+def shared_value_ops(ctx):
+    """constant folding computes with the `baa` value operations: a rule that folds with an operation whose one-word fast path and multi-word path
+    disagree (R06.4, decided on baa's own source) changes the value of the expression - shared with C06"""
+    from . import c06
+    ctx.rule("R06.4", "in baa, a BitVecOps method of the shape `if self.words().len() == 1 {f(..)} else {g(..)}` must call the same primitive in both branches; workspace calls of a method that does not are findings (shared with C06)")
+    c06.baa_siblings(ctx)
 
 
 def r016(ctx):
@@ -497,6 +506,7 @@ def r015(ctx):
 LEVEL_TEXT = ("Static table/dataflow analysis over the compiler's type-checked program: proves for all 35 Expr variants at once that the driver's "
               "rebuild step keeps operator, attributes and child positions, that no shift amount or width is silently truncated in the simplifier, and that the "
               "dispatcher wires attributes to the right rule parameters, and - by width inference over all ~140 syntactic paths of the 17 rule functions - that every rewrite result has the type of the node it replaces and is built from well-sorted operator applications. These are necessary conditions of meaning preservation that no test input reaches for every variant; "
-              "value-soundness of each rewrite rule is explicitly not decided.")
+              "value-soundness of each rewrite rule is explicitly not decided."
+              " Added: the rules' shared plumbing - an operand helper that forgets which operand was the literal serves commutative operators only, the unit/annihilator branches of and/or/xor/add/mul are the algebraic laws (table of nine), constant folding calls no baa operation whose fast and slow paths disagree - and, because the statement covers system-wide simplification, the C11 clauses (every field handed to the engine and re-pointed from its own result).")
 LEVEL_NOTE = "Trusts rustc name resolution/type check and the child order of for_each_child as the reference order; rewrite-rule soundness (value equality) is outside this technique."
 TECHNIQUE = "sibling-table agreement (match-arm table vs enum definition vs child order) + guarded-narrowing-cast dataflow rule + path-sensitive width (sort) inference with linear width terms over the rewrite rules, on rustc HIR facts"
